@@ -50,19 +50,30 @@ func sigTypeOf(id Ident) string {
 type pool struct {
 	raw    map[string][]byte // cid string -> bytes
 	isSig  map[string]bool
-	order  []string // insertion order (deterministic)
+	order  []string // insertion order
 	forged map[string]bool
+	// label is a name that does not depend on cids (counter nonces make cids differ between runs of one case)
+	label map[string]string
+}
+
+// name returns the run-independent name of a block.
+func (p *pool) name(k string) string {
+	if l, ok := p.label[k]; ok {
+		return l
+	}
+	return "unknown-block"
 }
 
 func newPool() *pool {
-	return &pool{raw: map[string][]byte{}, isSig: map[string]bool{}, forged: map[string]bool{}}
+	return &pool{raw: map[string][]byte{}, isSig: map[string]bool{}, forged: map[string]bool{}, label: map[string]string{}}
 }
 
-func (p *pool) add(c cid.Cid, raw []byte, isSig, forged bool) {
+func (p *pool) add(c cid.Cid, raw []byte, isSig, forged bool, label string) {
 	k := c.String()
 	if _, ok := p.raw[k]; ok {
 		return
 	}
+	p.label[k] = label
 	p.raw[k] = raw
 	p.isSig[k] = isSig
 	p.forged[k] = forged
@@ -562,7 +573,7 @@ func (p *pool) tamperBlock(target string, kind string, arg int, otherDocIDs []st
 			s = &coreblock.Signature{Header: coreblock.SignatureHeader{Type: sigTypeOf(otherKey), Identity: []byte(pk.GetPublic().String())}, Value: v}
 		}
 		sc, sraw := encodeSig(s)
-		p.add(sc, sraw, true, true)
+		p.add(sc, sraw, true, true, "forged-signature-of["+p.name(target)+"]")
 		l := cidlink.Link{Cid: sc}
 		b.Signature = &l
 	case kSigSwap:
@@ -588,7 +599,7 @@ func (p *pool) tamperBlock(target string, kind string, arg int, otherDocIDs []st
 	if _, err := coreblock.GetFromBytes(nraw); err != nil {
 		hx.Harnessf("forged block does not decode (%s): %v", kind, err)
 	}
-	p.add(nc, nraw, false, true)
+	p.add(nc, nraw, false, true, "forged["+p.name(target)+"]")
 	return nc.String(), kind
 }
 
@@ -628,25 +639,21 @@ func (p *pool) repoint(path []string, newChild string, attacker Ident) (string, 
 		if b.Signature != nil {
 			s := signWith(b, attacker)
 			sc, sraw := encodeSig(s)
-			p.add(sc, sraw, true, true)
+			p.add(sc, sraw, true, true, "attacker-signature-of["+p.name(path[i])+"]")
 			l := cidlink.Link{Cid: sc}
 			b.Signature = &l
 			resigned++
 		}
 		nc, nraw := encodeBlock(b)
-		p.add(nc, nraw, false, true)
+		p.add(nc, nraw, false, true, "repointed["+p.name(path[i])+"]")
 		child = path[i]
 		newChild = nc.String()
 	}
 	return newChild, resigned
 }
 
-func short(k string) string {
-	if len(k) > 10 {
-		return k[len(k)-8:]
-	}
-	return k
-}
+// short is the identity: full cids are replaced by run-independent names in failure messages (anon).
+func short(k string) string { return k }
 
 func describe(b *coreblock.Block) string {
 	switch {
